@@ -79,6 +79,27 @@ Section Steps.
           destruct (i - j) as [|d] eqn:E; [lia|]. cbn [nth].
           rewrite nth_skipn_add. f_equal. lia.
   Qed.
+
+  (* the statement that uses the schedule: take ANY interleaving l of the threads' operation lists ts, run it on
+     the shared key, and hand every thread the results of its own operations (results tagged with the thread
+     number, filtered, in order): thread i sees exactly the outputs of running ITS OWN list alone *)
+  Definition tagged_outputs (k : Key) (l : list (nat * Op)) : list (nat * Out) :=
+    combine (map fst l) (snd (run eval k (map snd l))).
+
+  Lemma tagged_outputs_map k l : tagged_outputs k l = map (fun io => (fst io, eval k (snd io))) l.
+  Proof.
+    unfold tagged_outputs. rewrite run_outputs, map_map.
+    induction l as [|[i o] l IH]; [reflexivity|]. cbn [map combine fst snd]. rewrite IH. reflexivity.
+  Qed.
+
+  Theorem each_thread_sees_its_sequential_run (ts : list (list Op)) (l : list (nat * Op)) k i :
+    interleave ts l -> i < length ts ->
+    map snd (filter (fun r => Nat.eqb (fst r) i) (tagged_outputs k l)) = snd (run eval k (nth i ts [])).
+  Proof.
+    intros H Hi. rewrite tagged_outputs_map, run_outputs, <- (interleave_projects ts l i H Hi).
+    clear H Hi. induction l as [|[j o] l IH]; [reflexivity|].
+    cbn [map filter fst snd]. destruct (Nat.eqb j i); cbn [map snd]; rewrite IH; reflexivity.
+  Qed.
 End Steps.
 
 (* ------------------------------------------------------------------ the sharing inventory *)
